@@ -346,6 +346,75 @@ pub fn check_bytes(input: &[u8]) -> Result<(bool, u64, u64), String> {
             }
         }
     }
+    // the tokens a text diff is built from are the tokenizer's, whatever the SAME configuration
+    // object tokenized before: one TextDiffConfig runs a circuit through every ordered pair of
+    // constructors on the same two texts (quick tier: inputs of up to 3 bytes)
+    if modes_wanted(input.len(), 3) {
+        let mut other = input.to_vec();
+        other.push(b'x');
+        let to = tokenize::<[u8]>(&other)?;
+        let r = subject(|| -> Result<(), String> {
+            let mut cfg = similar::TextDiff::configure();
+            let k = if cfg!(feature = "unicode") { 5 } else { 3 };
+            // Eulerian circuit of the complete digraph with loops on k constructors
+            let mut circuit = vec![0usize];
+            let mut used = vec![vec![false; k]; k];
+            let mut stack = vec![0usize];
+            let mut out = vec![];
+            while let Some(&v) = stack.last() {
+                if let Some(w) = (0..k).find(|&w| !used[v][w]) {
+                    used[v][w] = true;
+                    stack.push(w);
+                } else {
+                    out.push(stack.pop().unwrap());
+                }
+            }
+            out.reverse();
+            circuit.extend(out.into_iter().skip(1));
+            let mut prev = usize::MAX;
+            for &t in &circuit {
+                let (want_o, want_n, name): (&Vec<&[u8]>, &Vec<&[u8]>, &str) = match t {
+                    0 => (&tb.lines, &to.lines, "diff_lines"),
+                    1 => (&tb.words, &to.words, "diff_words"),
+                    2 => (&tb.chars, &to.chars, "diff_chars"),
+                    #[cfg(feature = "unicode")]
+                    3 => (&tb.uwords, &to.uwords, "diff_unicode_words"),
+                    #[cfg(feature = "unicode")]
+                    _ => (&tb.graphemes, &to.graphemes, "diff_graphemes"),
+                    #[cfg(not(feature = "unicode"))]
+                    _ => unreachable!(),
+                };
+                let d = match t {
+                    0 => cfg.diff_lines(input, &other[..]),
+                    1 => cfg.diff_words(input, &other[..]),
+                    2 => cfg.diff_chars(input, &other[..]),
+                    #[cfg(feature = "unicode")]
+                    3 => cfg.diff_unicode_words(input, &other[..]),
+                    #[cfg(feature = "unicode")]
+                    _ => cfg.diff_graphemes(input, &other[..]),
+                    #[cfg(not(feature = "unicode"))]
+                    _ => unreachable!(),
+                };
+                let got_o: Vec<&[u8]> = d.old_slices().iter().map(|x| &x[..]).collect();
+                let got_n: Vec<&[u8]> = d.new_slices().iter().map(|x| &x[..]).collect();
+                if &got_o != want_o || &got_n != want_n {
+                    return Err(format!(
+                        "TextDiffConfig::{} right after {} on the same configuration and the same texts is built from tokens {} / {}; the tokenizer gives {} / {}",
+                        name,
+                        if prev == usize::MAX { "nothing".to_string() } else { ["diff_lines", "diff_words", "diff_chars", "diff_unicode_words", "diff_graphemes"][prev].to_string() },
+                        show(&got_o),
+                        show(&got_n),
+                        show(want_o),
+                        show(want_n)
+                    ));
+                }
+                prev = t;
+            }
+            Ok(())
+        })
+        .map_err(|p| format!("one TextDiffConfig through every pair of constructors: panic: {}", p))?;
+        r?;
+    }
     let nontrivial = tb.chars.len() >= 2 && (tb.lines.len() >= 2 || tb.words.len() >= 2);
     Ok((nontrivial, ntok, fp.0))
 }
@@ -399,6 +468,7 @@ pub fn run(cfg: &RunCfg) -> CheckReport {
     rep.assume("reference tokenizers in the harness; whitespace = char::is_whitespace; invalid UTF-8 delimited by the standard library's maximal-subpart rule, char tokens over invalid bytes only required to be <= 3 bytes, not UTF-8, ASCII-free");
     rep.assume("for the two unicode tokenizers only losslessness and non-emptiness are required (as stated)");
     rep.assume("every input is additionally tokenized as a view into a larger buffer (4 neighbour pairs: CR before / LF after, letters, ZWJ before / combining mark after, the two halves of a split multi-byte character) and must give the tokens of the input on its own");
+    rep.assume("one TextDiffConfig object is run through an Eulerian circuit over all ordered pairs of its constructors on the same two texts; each diff's old_slices / new_slices must be the direct tokenizer's output (quick tier: inputs of up to 3 bytes; thorough: all)");
     let l = cfg.tier.pick(5, 6);
     let letters: Vec<&[u8]> = CHARS.iter().map(|s| s.as_bytes()).collect();
     let ex = explore_alphabet(cfg, &letters, l);
